@@ -389,7 +389,9 @@ func cmdGen(args []string) {
 			}
 		}
 		if wrapFamilies[*family] && (i%4 == 0 || i%4 == 3) { // (the other indices carry scripted corners: left as written)
-			wrapRolledBack(rand.New(rand.NewSource(*seed*7919+int64(i)*31+5)), s.Steps, 10)
+			wr := rand.New(rand.NewSource(*seed*7919 + int64(i)*31 + 5))
+			wrapRolledBack(wr, s.Steps, 10)
+			s.Steps = composeMulti(wr, s.Steps, 8)
 		}
 		bz, _ := json.Marshal(s)
 		f.Write(bz)
@@ -419,6 +421,37 @@ func closeLists(r *rand.Rand, action string, reqs []any, lists ...string) Step {
 		}
 	}
 	return st
+}
+
+// composeMulti: about one transaction step in `oneIn` is combined with the same user's next transaction step (pulled forward)
+// into ONE transaction carrying both messages (driver step "multi").  Bot messages that process several positions / orders
+// stay single (their sub-step observations belong to one message).
+var multiExcluded = map[string]bool{"perpClosePositions": true, "levClosePositions": true, "execOrders": true}
+
+func composeMulti(r *rand.Rand, st []Step, oneIn int) []Step {
+	var out []Step
+	used := map[int]bool{}
+	for i := range st {
+		if used[i] {
+			continue
+		}
+		a := st[i].S("a")
+		if wrapable[a] && !multiExcluded[a] && r.Intn(oneIn) == 0 {
+			for j := i + 1; j < len(st) && j <= i+6; j++ {
+				b := st[j].S("a")
+				if !used[j] && wrapable[b] && !multiExcluded[b] && st[j].S("u") == st[i].S("u") {
+					out = append(out, Step{"a": "multi", "u": st[i].S("u"), "inner": []any{map[string]any(st[i]), map[string]any(st[j])}})
+					used[i], used[j] = true, true
+					break
+				}
+			}
+			if used[i] {
+				continue
+			}
+		}
+		out = append(out, st[i])
+	}
+	return out
 }
 
 func wrapRolledBack(r *rand.Rand, st []Step, oneIn int) {
